@@ -18,7 +18,24 @@ type SpecStep struct {
 	P    string              `json:"p"`
 	V    string              `json:"v"`
 	Post map[string]SpecProj `json:"post"`
+	// asynchronous grain: the message the action is about, and the requests the step put on the wire
+	M     *SpecMsg  `json:"m,omitempty"`
+	Spawn []SpecMsg `json:"spawn,omitempty"`
 }
+
+// SpecMsg identifies a request of the specification's `net': kind, endpoints of the request,
+// the sender's round number (phase says whether the action handles the request or its response).
+type SpecMsg struct {
+	Kind  string `json:"kind"` // rv | ae
+	Phase string `json:"phase"`
+	From  string `json:"from"`
+	To    string `json:"to"`
+	Round int    `json:"round"`
+	Pre   bool   `json:"pre"`
+	Term  int    `json:"term"`
+}
+
+func (m *SpecMsg) key() string { return fmt.Sprintf("%s/%s/%s/%d", m.Kind, m.From, m.To, m.Round) }
 
 type SpecProj struct {
 	Term   int    `json:"term"`
@@ -82,7 +99,54 @@ func (r *Runner) specStep(k int, st SpecStep) {
 	n, p := unq(st.N), unq(st.P)
 	c.rec.Emit("spec", Ev{"k": k, "a": st.A, "n": n, "p": p, "v": unq(st.V)})
 	ok := true
+	mark := c.net.seqNow()
+	if r.rpcMap == nil {
+		r.rpcMap = map[string]*RPC{}
+	}
+	var mapped *RPC
+	if st.M != nil {
+		mapped = r.rpcMap[st.M.key()]
+		// mapped requests must survive: no overflow drops from here on
+		c.net.maxPerLink = 0
+	}
 	switch st.A {
+	case "TimerFireA":
+		c.net.maxPerLink = 0
+		ok = r.Do(Stim{Op: "fire", N: n})
+	case "StartRound":
+		c.net.maxPerLink = 0
+		ok = r.Do(Stim{Op: "hb", N: n})
+	case "ClientRead":
+		c.net.maxPerLink = 0
+		ok = r.Do(Stim{Op: "submit", N: n, Val: fmt.Sprintf("rd%d", k), K: 1, TO: 60000})
+	case "RVHandle", "AEHandle":
+		if mapped == nil || mapped.Phase != 0 {
+			ok = false
+			break
+		}
+		if st.A == "RVHandle" {
+			c.lapse(st.M.To)
+		}
+		r.doRPC(Stim{Op: "deliver", Kind: mapped.Kind, From: mapped.From, To: mapped.To}, mapped)
+	case "RVReply", "AEReply":
+		if mapped == nil || mapped.Phase != 2 {
+			ok = false
+			break
+		}
+		if st.A == "RVReply" {
+			c.lapse(st.M.From)
+		}
+		r.doRPC(Stim{Op: "reply", Kind: mapped.Kind, From: mapped.From, To: mapped.To}, mapped)
+	case "Lose":
+		if mapped == nil || mapped.Phase == 3 {
+			ok = false
+			break
+		}
+		op := "dropreq"
+		if mapped.Phase == 2 {
+			op = "dropresp"
+		}
+		r.doRPC(Stim{Op: op, Kind: mapped.Kind, From: mapped.From, To: mapped.To}, mapped)
 	case "TimerFire":
 		ok = r.Do(Stim{Op: "fire", N: n})
 	case "RVExchange":
@@ -123,6 +187,27 @@ func (r *Runner) specStep(k int, st SpecStep) {
 		ok = false
 	}
 	c.Settle()
+	// bind the requests this step put on the wire (in the specification) to the real ones
+	for i := range st.Spawn {
+		sp := &st.Spawn[i]
+		var best *RPC
+		for _, p := range c.net.Pending() {
+			if p.ID <= mark || p.Phase != 0 || p.Kind != sp.Kind || p.From != sp.From || p.To != sp.To {
+				continue
+			}
+			if sp.Kind == "rv" && (p.RV.Prevote != sp.Pre || int(p.RV.Term) != sp.Term) {
+				continue
+			}
+			if best == nil || p.ID < best.ID {
+				best = p
+			}
+		}
+		if best != nil {
+			r.rpcMap[sp.key()] = best
+		} else {
+			ok = false
+		}
+	}
 	ids := make([]string, 0, len(st.Post))
 	for id := range st.Post {
 		ids = append(ids, id)
